@@ -83,6 +83,14 @@ pub struct ProcessTransaction<'a> {
 }
 
 impl ProcessState {
+    /// Reports whether a state database exists for the project `e` points at.
+    /// The commands that only list state ask first: there is nothing to list
+    /// before the first build, and creating a `.redo` directory would decide
+    /// where later builds look for their state.
+    pub fn exists(e: &Env) -> bool {
+        e.base().join(".redo").join("db.sqlite3").exists()
+    }
+
     pub fn init(mut e: Env) -> Result<ProcessState, RedoError> {
         let dbdir = {
             let mut dbdir = PathBuf::from(e.base());
